@@ -35,32 +35,61 @@ def _run_cvc5(text, timeout_s):
         os.unlink(path)
 
 
+def _z3_once(hyps, goal, timeout_s, seed=None, logic=None):
+    s = z3.SolverFor(logic) if logic else z3.Solver()
+    s.set("timeout", int(timeout_s * 1000))
+    # note: plain "random_seed" on the default solver changes its strategy (observed: unsat -> unknown);
+    # the module-qualified parameter does not.
+    if seed:
+        s.set("smt.random_seed", int(seed) % 1000)
+    s.add(*hyps)
+    s.add(z3.Not(goal))
+    return s.check(), s
+
+
 def _solve(idx):
+    """Portfolio, in this order (a proof or a model from any step is final):
+       z3 unseeded, short budget -> cvc5 -> z3 unseeded, full budget -> z3 with the run's seed, full budget.
+    The first steps never depend on VERIF_SEED, so a verdict reached on the unchanged tree does not flip with the seed."""
     item = _OBLS[idx]
     hyps, goal, want_model, probes = item[:4]
     logic = item[4] if len(item) > 4 else None
     t0 = time.time()
-    s = z3.SolverFor(logic) if logic else z3.Solver()
-    s.set("timeout", int(_CFG["z3_timeout"] * 1000))
-    # note: plain "random_seed" on the default solver changes its strategy (observed: unsat -> unknown);
-    # the module-qualified parameter does not.
-    if _CFG.get("seed"):
-        s.set("smt.random_seed", int(_CFG["seed"]) % 1000)
-    s.add(*hyps)
-    s.add(z3.Not(goal))
-    r = s.check()
+    T = _CFG["z3_timeout"]
+    short = min(5.0, T)
+    steps = ["z3:%gs" % short]
+    r, s = _z3_once(hyps, goal, short if not (want_model or logic) else T, None, logic)
     if r == z3.unknown and want_model and not logic:
         r2, s2 = _guided(hyps, goal)
         if r2 == z3.sat:
             r, s = r2, s2
     if r == z3.unknown and logic:
         # quantifiers left (integer-keyed maps): the general solver with model-based instantiation
-        s = z3.Solver()
-        s.set("timeout", int(_CFG["z3_timeout"] * 1000))
-        s.add(*hyps)
-        s.add(z3.Not(goal))
-        r = s.check()
+        r, s = _z3_once(hyps, goal, T)
     res = {"idx": idx, "z3": str(r), "z3_s": round(time.time() - t0, 3), "reason": "", "backend": "z3"}
+    if r == z3.unknown and _CFG.get("cvc5", True):
+        t1 = time.time()
+        try:
+            txt = s.to_smt2()
+            cr, err = _run_cvc5(txt, _CFG["cvc5_timeout"])
+        except Exception as e:          # pragma: no cover
+            cr, err = "error", str(e)[:200]
+        steps.append("cvc5")
+        res["cvc5"] = cr
+        res["cvc5_s"] = round(time.time() - t1, 3)
+        if err:
+            res["cvc5_err"] = err
+        if cr in ("unsat", "sat"):
+            res["backend"] = "cvc5"
+    if r == z3.unknown and res.get("cvc5") not in ("unsat", "sat") and not (want_model or logic) and T > short:
+        t2 = time.time()
+        r, s = _z3_once(hyps, goal, T)
+        steps.append("z3:%gs" % T)
+        if r == z3.unknown and _CFG.get("seed"):
+            r, s = _z3_once(hyps, goal, T, _CFG["seed"])
+            steps.append("z3:seed")
+        res["z3"] = str(r)
+        res["z3_s"] = round(res["z3_s"] + time.time() - t2, 3)
     if r == z3.unknown:
         res["reason"] = s.reason_unknown()
     if r == z3.sat and want_model:
@@ -72,24 +101,12 @@ def _solve(idx):
             except Exception as e:      # pragma: no cover
                 vals[name] = "?%s" % e
         res["model"] = vals
-    if r == z3.unknown and _CFG.get("cvc5", True):
-        t1 = time.time()
-        try:
-            txt = s.to_smt2()
-            cr, err = _run_cvc5(txt, _CFG["cvc5_timeout"])
-        except Exception as e:          # pragma: no cover
-            cr, err = "error", str(e)[:200]
-        res["cvc5"] = cr
-        res["cvc5_s"] = round(time.time() - t1, 3)
-        if err:
-            res["cvc5_err"] = err
-        if cr in ("unsat", "sat"):
-            res["backend"] = "cvc5"
-    elif _CFG.get("recheck") and r == z3.unsat:
+    if _CFG.get("recheck") and r == z3.unsat and "cvc5" not in res:
         t1 = time.time()
         cr, err = _run_cvc5(s.to_smt2(), _CFG["cvc5_timeout"])
         res["cvc5"] = cr
         res["cvc5_s"] = round(time.time() - t1, 3)
+    res["steps"] = steps
     res["verdict"] = _verdict(res)
     return res
 
